@@ -181,6 +181,49 @@ def pack(units):
     return inc, py
 
 
+# ---- placement lifts: the same function as a method of a class / in an imported module -------------------------------
+_SINGLE_DEF = re.compile(r"^def (\w+)\(([^)]*)\) -> ([^:]+):\n", re.M)
+
+
+def liftable(u):
+    """Units whose declarations are exactly one plain function (no recursion, no hand-written reference)."""
+    if u.py_decls is not None or u.py_driver is not None or u.panics:
+        return False
+    if len(re.findall(r"^(?:def|model|class|enum|trait|type|const|@|from|import)\b", u.decls, re.M)) != 1:
+        return False
+    m = _SINGLE_DEF.match(u.decls)
+    if not m:
+        return False
+    name = m.group(1)
+    return u.decls.count(name + "(") == 1 and (name + "(") in u.driver
+
+
+def lift_method(u):
+    """def f(params) -> T: body   ==>   class Host_f: v: int / def f(self, params) -> T: body ; calls become Host_f(v=0).f(..)"""
+    m = _SINGLE_DEF.match(u.decls)
+    name, params, ret = m.group(1), m.group(2), m.group(3)
+    body = u.decls[m.end():]
+    host = "Host_" + name
+    sig = f"    def {name}(self{', ' + params if params.strip() else ''}) -> {ret}:\n"
+    decls = f"class {host}:\n    v: int\n\n" + sig + "\n".join(("    " + l if l.strip() else l) for l in body.split("\n"))
+    driver = re.sub(r"\b" + re.escape(name) + r"\(", f"{host}(v=0).{name}(", u.driver)
+    return Unit(u.name, decls, driver, tags=u.tags + ("lift:method",))
+
+
+def pack_module(units):
+    """The same units with every function living in lib.incn (pub) and imported by the entry file.
+    Returns ({file: text}, python_source) - the reference is the single-file program."""
+    names = [_SINGLE_DEF.match(u.decls).group(1) for u in units]
+    lib = "\n\n\n".join("pub " + u.decls for u in units) + "\n"
+    main = []
+    for u in units:
+        main.append(f'println("@@{u.name}")')
+        main.append(u.driver)
+    entry = "from semlib import " + ", ".join(names) + "\n\n\ndef main() -> None:\n" + ind("\n".join(main)) + "\n"
+    _, py = pack(units)
+    return {"prog.incn": entry, "semlib.incn": lib}, py
+
+
 def run_python(py):
     p = subprocess.run([sys.executable, "-c", py], capture_output=True, text=True, timeout=120)
     return p.returncode, p.stdout, p.stderr
@@ -667,6 +710,43 @@ def corpus(tier):
             tags=("class", "extends", "override"),
         )
     )
+    # ---- feature interactions: inheritance x traits (the member that satisfies the trait lives in an ancestor) -------------
+    U.append(
+        Unit(
+            "inherit_trait_method",
+            'trait XDescribable:\n    def describe(self) -> str: ...\n\n\nclass XBase:\n    name: str\n\n    def describe(self) -> str:\n        return f"base {self.name}"\n\n\nclass XChild extends XBase with XDescribable:\n    extra: int',
+            'c = XChild(name="item", extra=3)\nprintln(c.describe())\nprintln(c.extra)',
+            py_decls='@dataclass\nclass XBase:\n    name: str\n\n    def describe(self):\n        return "base " + self.name\n\n\n@dataclass\nclass XChild(XBase):\n    extra: int',
+            tags=("class", "extends", "trait", "inherited-method-satisfies-trait"),
+        )
+    )
+    U.append(
+        Unit(
+            "inherit_requires_field",
+            '@requires(label: str)\ntrait XLabeled:\n    def show(self) -> str:\n        return f"<{self.label}>"\n\n\nclass XLBase:\n    label: str\n\n\nclass XLChild extends XLBase with XLabeled:\n    n: int',
+            'c = XLChild(label="tag", n=1)\nprintln(c.show())\nprintln(c.n)',
+            py_decls='class XLabeled:\n    def show(self):\n        return "<" + self.label + ">"\n\n\n@dataclass\nclass XLBase:\n    label: str\n\n\n@dataclass\nclass XLChild(XLBase, XLabeled):\n    n: int',
+            tags=("class", "extends", "trait", "requires", "inherited-field-satisfies-requires"),
+        )
+    )
+    U.append(
+        Unit(
+            "inherit_trait_default_calls_inherited",
+            'trait XGreeter:\n    def who(self) -> str: ...\n\n    def greet(self) -> str:\n        return f"hi {self.who()}"\n\n\nclass XGBase:\n    n: str\n\n    def who(self) -> str:\n        return f"{self.n}"\n\n\nclass XGMid extends XGBase:\n    m: int\n\n\nclass XGLeaf extends XGMid with XGreeter:\n    k: int',
+            'c = XGLeaf(n="ann", m=1, k=2)\nprintln(c.greet())\nprintln(c.m + c.k)',
+            py_decls='class XGreeter:\n    def greet(self):\n        return "hi " + self.who()\n\n\n@dataclass\nclass XGBase:\n    n: str\n\n    def who(self):\n        return self.n\n\n\n@dataclass\nclass XGMid(XGBase):\n    m: int\n\n\n@dataclass\nclass XGLeaf(XGMid, XGreeter):\n    k: int',
+            tags=("class", "extends", "trait", "default-method", "three-levels"),
+        )
+    )
+    U.append(
+        Unit(
+            "inherit_trait_on_parent",
+            'trait XNamed:\n    def tag(self) -> str: ...\n\n\nclass XNBase with XNamed:\n    n: str\n\n    def tag(self) -> str:\n        return f"p:{self.n}"\n\n\nclass XNChild extends XNBase:\n    k: int\n\n    def tag(self) -> str:\n        return f"c:{self.n}"',
+            'p = XNBase(n="a")\nc = XNChild(n="b", k=1)\nprintln(p.tag())\nprintln(c.tag())',
+            py_decls='@dataclass\nclass XNBase:\n    n: str\n\n    def tag(self):\n        return "p:" + self.n\n\n\n@dataclass\nclass XNChild(XNBase):\n    k: int\n\n    def tag(self):\n        return "c:" + self.n',
+            tags=("class", "extends", "trait", "trait-on-parent", "override"),
+        )
+    )
     U.append(
         Unit(
             "trait_default",
@@ -949,4 +1029,12 @@ def grammar_units(tier):
         decl = f"def {nm}(x0: int, y0: int) -> int:\n    mut x = x0\n    mut y = y0\n" + ind(body.rstrip("\n")) + "\n    return x * 1000 + y"
         drv = "\n".join(f"println({nm}({a}, {b}))" for a, b in args)
         units.append(Unit(nm, decl, drv, tags=("seq",) + tuple(n for n, _ in seq)))
+        if len(seq) == 1:
+            # the same single statement with the two variables initialised from call results (their types are then not
+            # syntactically evident: in an imported module the code generator has no checker output for them)
+            for iname, ix, iy in (("init:sum", "sum([x0])", "sum([y0])"), ("init:int_len", "int(x0)", "y0 + len([x0]) - 1")):
+                nm2 = slug("gi", iname + "|" + seq[0][0])
+                decl2 = f"def {nm2}(x0: int, y0: int) -> int:\n    mut x = {ix}\n    mut y = {iy}\n" + ind(body.rstrip("\n")) + "\n    return x * 1000 + y"
+                drv2 = "\n".join(f"println({nm2}({a}, {b}))" for a, b in args)
+                units.append(Unit(nm2, decl2, drv2, tags=("seq", iname, seq[0][0])))
     return units
